@@ -4,6 +4,7 @@
 From Model Require Import Engine.
 From Spec Require Import Sem.
 From Proofs Require Import RefineBase Faithful VarsSubstring.
+From Proofs Require VarsVM.
 
 (* Every core the VM holds - the running one and every checkpoint - has its position inside the
    text, matched text = text[start..pos), and line/column in step (CoreInv); one step preserves it. *)
@@ -46,7 +47,41 @@ Theorem C03_variables_are_substrings :
 Proof. exact VarsSubstring.vars_substring_lemma. Qed.
 Print Assumptions C03_variables_are_substrings.
 
+(* ... and at the level of the engine, for ARBITRARY bytecode - named loops with their nested per-iteration
+   maps included: every string the VM binds anywhere (environment, iteration maps of named loops, at any
+   nesting depth) is a substring of the text matched so far; so in every match of every command, on every
+   text and window, every string variable at any depth of [mvars] is a substring of [mvalue]
+   ([VarsVM.esub m e]: every value of e is a substring of m, maps recursively). *)
+Theorem C03_variables_are_substrings_any_bytecode :
+  forall vmfuel prog text all skip take last R,
+  find_matches vmfuel prog text all skip take last = SOk R ->
+  Forall (fun m => VarsVM.esub (mvalue m) (mvars m)) R.
+Proof. exact VarsVM.find_matches_vars_substrings. Qed.
+Print Assumptions C03_variables_are_substrings_any_bytecode.
+
+(* what [esub] says, spelled out for the two levels a match has in practice *)
+Theorem C03_esub_meaning :
+  forall m e, VarsVM.esub m e ->
+  (forall n s, alookup e n = Some (VStr s) -> exists a b, m = a ++ s ++ b) /\
+  (forall n mp k s, alookup e n = Some (VMap mp) -> alookup mp k = Some (VStr s) -> exists a b, m = a ++ s ++ b).
+Proof.
+  intros m e H. split.
+  - intros n s E. exact (VarsVM.esub_lookup m e n (VStr s) H E).
+  - intros n mp k s E1 E2. pose proof (VarsVM.esub_lookup m e n (VMap mp) H E1) as Hm. apply VarsVM.vsub_map in Hm.
+    exact (VarsVM.esub_lookup m mp k (VStr s) Hm E2).
+Qed.
+Print Assumptions C03_esub_meaning.
+
 Example C03_witness :
   exists m1 m2, find_matches 100 [IMatchLit false false [98]%N] [97; 98; 10; 98]%N true 0 0 0 = SOk [m1; m2] /\
     (mlstart m2, mcstart m2, mcend m2) = (2, 1, 2) /\ (mstart m1, mend m1) = (1, 2).
 Proof. vm_compute. eexists. eexists. repeat split. Qed.
+
+(* non-vacuity of the variables theorem with a named loop: `at least 1 (any = c) named cs` on "ab" reports one
+   match whose variables nest two levels deep (cs -> iteration -> c) *)
+Definition ex_named : list instr :=
+  compile (XLoop 0 1 (-1) false [99;115]%N (XDec [99]%N (XAtom (IMatchClass false CAny)))) 0.
+Example C03_named_loop_witness :
+  exists m, find_matches 200 ex_named [97; 98]%N true 0 0 0 = SOk [m] /\ mvalue m = [97; 98]%N /\
+    mvars m = [([99;115]%N, VMap [([50]%N, VMap []); ([49]%N, VMap [([99]%N, VStr [98]%N)]); ([48]%N, VMap [([99]%N, VStr [97]%N)])])].
+Proof. vm_compute. eexists. repeat split. Qed.
